@@ -1,7 +1,7 @@
 (* C05 - property theorems only.  crc, bech32 and base58 are universally
    quantified (Section variables with their round-trip laws as premises). *)
 From Coq Require Import String.
-From V Require Import Lib.Base Lib.Hex Lib.Cbor Lib.CborParse C05.Gen C05.Model C05.Varint C05.Proofs C05.TextByron.
+From V Require Import Lib.Base Lib.Hex Lib.Cbor Lib.CborParse C05.Gen C05.Model C05.Varint C05.Proofs C05.TextByron C05.Accept.
 Local Open Scope N_scope.
 
 (* raw bytes -> decoded address -> raw bytes is the identity (pointer varints minimal) *)
@@ -53,6 +53,33 @@ Proof.
   split; [vm_compute; reflexivity|]. split; [vm_compute; reflexivity|discriminate].
 Qed.
 
+(* ACCEPTANCE AS AN IFF ON RAW BYTES.  wf_bytes (C05/Accept.v) is written from CIP-19, the Byron CDDL and
+   cardano-multiplatform-lib's whitelist, independently of the model: a non-empty string h :: payload with
+   - type nibble h/16 = 8 and  h :: payload = enc [#6.24(bytes payload'), uint (crc payload')]  (one well-formed
+     CBOR item, nothing after it), crc payload' < 2^32, payload' = enc [bytes hash28, {?1: bytes, ?2: bytes}, uint]
+     (keys at most once, either order; a non-empty key-2 value starts with a CBOR uint < 2^32), or
+   - type nibble in {0..7, 14, 15}, network nibble < 2, payload = core ++ t with |core| = 56 (types 0..3),
+     28 (types 6, 7, 14, 15) or 28 + three base-128 varints (types 4, 5; any length, minimal or not), and
+     t = [] or (known finding) network nibble 1 and t in the whitelist. *)
+Theorem C05_accept_iff : forall crc bs, all_bytes bs ->
+  ((exists a, populate crc bs = Good a) <-> wf_bytes crc bs).
+Proof. exact accept_iff. Qed.
+Print Assumptions C05_accept_iff.
+(* contrapositive: everything outside the specification is rejected (and only that) *)
+Theorem C05_reject_iff : forall crc bs, all_bytes bs ->
+  ((exists e, populate crc bs = Fail e) <-> ~ wf_bytes crc bs).
+Proof. exact reject_iff. Qed.
+Print Assumptions C05_reject_iff.
+(* the exact lengths, read off the specification: an accepted testnet address (no whitelist) *)
+Theorem C05_accept_lengths : forall crc h payload a, all_bytes (h :: payload) ->
+  populate crc (h :: payload) = Good (Shelley a) -> h mod 16 = 0 ->
+  (h / 16 < 4 -> length payload = 56%nat) /\
+  (6 <= h / 16 -> length payload = 28%nat) /\
+  (h / 16 = 4 \/ h / 16 = 5 -> exists hsh p1 p2 p3, payload = hsh ++ p1 ++ p2 ++ p3 /\ length hsh = 28%nat /\
+                                 is_varint p1 /\ is_varint p2 /\ is_varint p3).
+Proof. exact accept_lengths. Qed.
+Print Assumptions C05_accept_lengths.
+
 (* Byron: accepted bytes are exactly one CBOR item [tag 24 payload, crc payload]; a wrong checksum is rejected *)
 Theorem C05_byron_framing : forall crc data b, byron_populate crc data = Good b ->
   exists fa ft fb fc payload,
@@ -97,3 +124,28 @@ Proof. eexists. vm_compute. reflexivity. Qed.
 Example C05_nonvacuous_byron : exists b, byron_populate crc32
   (hx "82d818582183581c0102030405060708090a0b0c0d0e0f101112131415161718191a1b1ca0001aff652cd9") = Good b /\ b_type b = 0.
 Proof. eexists. split; vm_compute; reflexivity. Qed.
+
+(* the specification is satisfiable on each branch, directly (not through the iff) *)
+Example C05_nonvacuous_wf_enterprise : forall crc, wf_bytes crc (hx "60" ++ repeat 7 28).
+Proof.
+  intros crc. exists 96, (repeat 7 28). split; [reflexivity|]. right.
+  split; [left; vm_compute; reflexivity|]. split; [vm_compute; reflexivity|].
+  exists (repeat 7 28), []. split; [rewrite app_nil_r; reflexivity|]. split; [reflexivity|left; reflexivity].
+Qed.
+Example C05_nonvacuous_wf_whitelist : forall crc, wf_bytes crc (hx "61" ++ repeat 7 28 ++ [0]).
+Proof.
+  intros crc. exists 97, (repeat 7 28 ++ [0]). split; [reflexivity|]. right.
+  split; [left; vm_compute; reflexivity|]. split; [vm_compute; reflexivity|].
+  exists (repeat 7 28), [0]. split; [reflexivity|]. split; [reflexivity|right].
+  split; [reflexivity|]. right. right. left. reflexivity.
+Qed.
+Example C05_nonvacuous_not_wf : ~ wf_bytes crc32 (hx "60" ++ repeat 7 28 ++ [0]) /\ ~ wf_bytes crc32 (hx "62" ++ repeat 7 28)
+  /\ ~ wf_bytes crc32 (hx "60" ++ repeat 7 27) /\ ~ wf_bytes crc32 (hx "90" ++ repeat 7 28).
+Proof.
+  repeat split; (apply C05_reject_iff; [repeat constructor; unfold is_byte; lia|eexists; vm_compute; reflexivity]).
+Qed.
+Example C05_nonvacuous_wf_byron : wf_bytes crc32
+  (hx "82d818582183581c0102030405060708090a0b0c0d0e0f101112131415161718191a1b1ca0001aff652cd9").
+Proof.
+  apply C05_accept_iff; [vm_compute; repeat constructor; unfold is_byte; lia|]. eexists. vm_compute. reflexivity.
+Qed.
